@@ -945,15 +945,20 @@ def remove_value(source: NixSourceCode, npath: str) -> str:
         if removed_layer and removed_layer.get(
             "body_after"
         ):  # pragma: no cover - defensive restoration
-            # Restore trailing trivia that was stashed on the scope layer.
+            # Restore trailing trivia that was stashed on the scope layer, unless
+            # it went back onto the body already.
+            restored_ids = {id(item) for item in target_expr.after}
+            stashed = [
+                item
+                for item in removed_layer["body_after"]
+                if id(item) not in restored_ids
+            ]
             if not source.trailing:
-                source.trailing = list(removed_layer["body_after"])
+                source.trailing = stashed
             else:
                 existing_ids = {id(item) for item in source.trailing}
                 source.trailing.extend(
-                    item
-                    for item in removed_layer["body_after"]
-                    if id(item) not in existing_ids
+                    item for item in stashed if id(item) not in existing_ids
                 )
         if (
             not source.trailing and original_trailing
